@@ -56,6 +56,93 @@ func StringKeys(m interface{}, site string) []string {
 	return out
 }
 
+// SelCase is one case of a rewritten select statement.
+type SelCase struct {
+	Send bool
+	Ch   interface{}
+	Val  interface{}
+}
+
+// SelResult is the outcome of a rewritten select: Index of the chosen case (-1: default).
+type SelResult struct {
+	Index int
+	Value interface{}
+	Ok    bool
+}
+
+// SelectHook, RecvHook, CloseHook, GoHook: set by the cooperative scheduler.
+var SelectHook func(hasDefault bool, cases []SelCase) SelResult
+var RecvHook func(ch interface{}) (interface{}, bool)
+var CloseHook func(ch interface{})
+var GoHook func(fn func())
+
+func SendCase(ch interface{}, v interface{}) SelCase { return SelCase{Send: true, Ch: ch, Val: v} }
+func RecvCase(ch interface{}) SelCase              { return SelCase{Ch: ch} }
+
+// Select performs a select statement over the given cases.
+func Select(hasDefault bool, cases ...SelCase) SelResult {
+	if SelectHook != nil {
+		return SelectHook(hasDefault, cases)
+	}
+	rc := make([]reflect.SelectCase, 0, len(cases)+1)
+	for _, c := range cases {
+		cv := reflect.ValueOf(c.Ch)
+		if c.Send {
+			var vv reflect.Value
+			if c.Val == nil {
+				vv = reflect.Zero(cv.Type().Elem())
+			} else {
+				vv = reflect.ValueOf(c.Val)
+			}
+			rc = append(rc, reflect.SelectCase{Dir: reflect.SelectSend, Chan: cv, Send: vv})
+		} else {
+			rc = append(rc, reflect.SelectCase{Dir: reflect.SelectRecv, Chan: cv})
+		}
+	}
+	if hasDefault {
+		rc = append(rc, reflect.SelectCase{Dir: reflect.SelectDefault})
+	}
+	i, v, ok := reflect.Select(rc)
+	if hasDefault && i == len(cases) {
+		return SelResult{Index: -1}
+	}
+	res := SelResult{Index: i, Ok: ok}
+	if v.IsValid() {
+		res.Value = v.Interface()
+	}
+	return res
+}
+
+// Recv performs <-ch.
+func Recv(ch interface{}) (interface{}, bool) {
+	if RecvHook != nil {
+		return RecvHook(ch)
+	}
+	v, ok := reflect.ValueOf(ch).Recv()
+	if !v.IsValid() {
+		return nil, ok
+	}
+	return v.Interface(), ok
+}
+
+// Close performs close(ch).
+func Close(ch interface{}) {
+	if CloseHook != nil {
+		CloseHook(ch)
+		return
+	}
+	reflect.ValueOf(ch).Close()
+}
+
+// Go performs `go fn()`.
+func Go(fn func()) {
+	if GoHook != nil {
+		GoHook(fn)
+		return
+	}
+	go fn()
+}
+
 // Send performs ch <- v, or hands the operation to the cooperative scheduler.
 func Send(ch interface{}, v interface{}) {
 	if SendHook != nil {
